@@ -1,7 +1,13 @@
 use std::panic;
+#[cfg(not(may_verif))]
 use std::sync::atomic::{AtomicBool, AtomicUsize, Ordering};
+#[cfg(may_verif)]
+use crate::verif::atomic::{AtomicBool, AtomicUsize, Ordering};
 use std::sync::Arc;
+#[cfg(not(may_verif))]
 use std::time::{Duration, Instant};
+#[cfg(may_verif)]
+use {crate::verif::Instant, std::time::Duration};
 
 use crate::cancel::Cancel;
 use crate::coroutine_impl::{
